@@ -21,3 +21,4 @@ open SamVerif.Hint
 #print axioms validators_agree
 #print axioms validators_agree_code
 #print axioms prefix_map_counterexample
+#print axioms annotation_is_local
